@@ -330,6 +330,10 @@ def merge_percentiles(finalq, qs, vals, method="lower", Ns=None, raise_on_nan=Tr
                 "interpolation method can only be 'linear', 'lower', "
                 "'higher', 'midpoint', or 'nearest'"
             )
+    # The extremes are known exactly: entries that carry no observations (such
+    # as the minimum of every input) must not pull the 0th percentile upwards
+    rv = np.where(desired_q <= 0, combined_vals[0], rv)
+    rv = np.where(desired_q >= combined_q[-1], combined_vals[-1], rv)
     return rv
 
 
